@@ -1056,6 +1056,14 @@ func cmpMask(op token.Token) (uint32, bool) {
 func (a *Analysis) absorb(at *Atom, ts ...*Term) {
 	for _, t := range ts {
 		at.dep.absorb(t)
+		// every atom about the same term depends on the same memory, whether or not a condition of the program has
+		// been matched to it yet: the consistency closure can constrain it through the others (transitivity), and
+		// then it must be forgotten together with them
+		for _, other := range a.Space.Atoms {
+			if other != at && t.S != "" && (other.A == t.S || other.B == t.S) {
+				other.dep.absorb(t)
+			}
+		}
 	}
 }
 
@@ -1158,27 +1166,29 @@ func constInt(c *ssa.Const) (int64, bool) {
 // ---- kills ----
 
 func (a *Analysis) killWhere(st State, pred func(at *Atom) bool) State {
+	var which []int
 	for i, at := range a.Space.Atoms {
 		if at.Kind == Ghost || at.History || at.skipKill {
 			continue
 		}
 		if pred(at) {
-			st = a.Space.Widen(st, i)
+			which = append(which, i)
 		}
 	}
-	return st
+	return a.Space.WidenAll(st, which)
 }
 
 func (a *Analysis) killReg(st State, v ssa.Value) State {
+	var which []int
 	for i, at := range a.Space.Atoms {
 		if at.Kind == Ghost || at.skipKill {
 			continue
 		}
 		if at.dep.Regs[v] {
-			st = a.Space.Widen(st, i)
+			which = append(which, i)
 		}
 	}
-	return st
+	return a.Space.WidenAll(st, which)
 }
 
 // KillShared forgets every state atom that reads node-shared memory (an unlock window).
